@@ -26,7 +26,7 @@ SPEC = {
     "rule": ("condition trees x define assignments; non-trivial = case with >= 2 chains (or nesting >= 2) in which at least one "
              "define changes the selected world relative to the no-define run, or a confirmed rejection (unknown define, "
              "undecidable condition); distinct = distinct (source, defines)"),
-    "monitors": ["one-world-equality", "reject-equals-model", "cli-define-spellings"],
+    "monitors": ["one-world-equality", "value-model", "reject-equals-model", "cli-define-spellings"],
     "min_nontrivial": {"quick": 500, "thorough": 10000},
     "assumptions": ["constants in conditions are global names (relative names cannot be decided before layout, by design)"],
 }
@@ -155,6 +155,16 @@ def shard(ctx):
                 ctx.violation("one-world", sig, job, {"twin_source": twin_src, "twin": b[0], "bits": (b[2] or "")[:80] if b[0] == "ok" else None},
                               {"cond": a[0], "bits": (a[2] or "")[:80] if a[0] == "ok" else None, "msgs": lib.first_messages(rec)})
                 continue
+            # independent of the twin: the bits the interpreter's world prescribes (defines replace values everywhere)
+            if a[0] == "ok":
+                ctx.monitor("value-model")
+                exp = GI.expected_bits(world, live)
+                got = lib.out_bits(rec)
+                if exp is not None and got != exp:
+                    ctx.violation("one-world", {"kind": "bits-differ-from-interpreter", "defines": len(defs) > 0,
+                                                "nested_declaration_follows_a_global_from_a_later_round": GI.reparent_trigger(world, live)}, job,
+                                  {"len": exp[0], "bits": hex(exp[1])}, {"len": got[0], "bits": hex(got[1])})
+                    continue
             if k == 0:
                 base_world = twin_src
             ctx.count("agree:" + a[0])
